@@ -16,15 +16,19 @@ def check(tree, rep, tier='quick', seed=0):
     rep.assumptions = ['argument in prose in DESIGN.md §3 C03: P1 and P2 and P3 imply that each stored value equals its definition on the final stores',
                        'NOT decided: arbitrary generated form programs (P1 is a property of each program); evaluation-order independence additionally needs C06']
     core = get_core(tree)
+    R.k0_solve_shape(core, rep)          # every requested form is known before the first line is attempted
     l1_access(tree, rep)
     l2_effects(tree, rep)
     l2b_shared_iterators(tree, rep)
     l2c_generators_consumed_once(tree, rep)
+    from ..linerules import l3_lines_are_read_not_recomputed
+    l3_lines_are_read_not_recomputed(tree, rep)
     from .c17 import one_definition_per_name, get_catalogue
     one_definition_per_name(get_catalogue(tree), rep)
     R.k12c_who_calls(core, rep)          # lines are evaluated only from the work-list loop (never between two answers of a round)
     R.k6_single_value_writer(core, rep)
     R.k7_missing_key_raises(core, rep)
+    R.k22_solution_agreement(core, rep)  # the solution text is the stored value, written verbatim (what the user reads as the line's value)
     R.k8_input_store_writes(core, rep)
     R.k11_input_gate(core, rep)
     R.k21_typed_values(core, rep)
